@@ -48,6 +48,19 @@ class _Awaitable:
         return self.coro.__await__()
 
 
+class _FalsyCallable:
+    """A legal callback that happens to be falsy (e.g. a callable collection of clean-up hooks that is still empty)."""
+
+    def __init__(self, fn: Any) -> None:
+        self.fn = fn
+
+    def __len__(self) -> int:
+        return 0
+
+    def __call__(self, *args: Any) -> Any:
+        return self.fn(*args)
+
+
 def shapes(level: str) -> list[dict]:
     out = []
     for route in ("ctx", "mod", "res", "gen", "svcwin"):
@@ -262,6 +275,14 @@ class C01(E1Check):
             finally:
                 log("cb-", label)
                 st["ended"].append(label)
+
+        falsy_route = "res" if program["kind"] == "child" else "ctx"
+
+        def make_cb(label: str, spec: dict, _mk: Any = make_cb) -> Any:  # noqa: F811
+            cb = _mk(label, spec)
+            # callbacks need not be functions: in child-context programs the resource route, in root programs the direct route,
+            # registers a callable OBJECT that is falsy
+            return _FalsyCallable(cb) if spec["route"] == falsy_route else cb
 
         async def register(i: int, spec: dict, ctx: Any) -> None:
             label = str(i)
